@@ -2,6 +2,7 @@ package harness
 
 import (
 	"fmt"
+	"runtime"
 	"sort"
 	"strings"
 	"time"
@@ -242,6 +243,10 @@ func (w *W) LibTasks() []simrt.TaskInfo {
 // each exactly once (a second Close would sweep up what the first one
 // missed, and hide it).
 func (w *W) Hygiene() {
+	if w.Real && !w.Failed() && !w.NoHygiene && len(w.socks) > 0 {
+		w.realCensus()
+		return
+	}
 	if w.Free || w.Failed() || w.NoHygiene || len(w.socks) == 0 {
 		return
 	}
@@ -273,6 +278,67 @@ func (w *W) Hygiene() {
 	}
 	w.Census("C10", w.socks...)
 	w.QuietCheck(22 * time.Second)
+}
+
+// realCensus is the end-of-run hygiene of engine R (real sockets, real
+// goroutines): every socket is closed (once), then - within 15 s of wall
+// clock - no goroutine may be left that is executing library code. Goroutines
+// are taken from a full stack dump; one counts when a frame of
+// go.nanomsg.org/mangos/v3 (not the simulator's seam packages) is on its stack
+// and no harness frame is (a harness task still inside an API call is the
+// harness's business).
+func (w *W) realCensus() {
+	for _, s := range w.socks {
+		if !hooks.SocketClosed(s) {
+			_ = s.Close()
+		}
+	}
+	var left []string
+	for i := 0; i < 150; i++ {
+		left = libraryGoroutines()
+		if len(left) == 0 {
+			return
+		}
+		time.Sleep(100 * time.Millisecond)
+	}
+	fn := left[0]
+	if k := strings.Index(fn, "\n"); k >= 0 {
+		fn = fn[:k]
+	}
+	w.Failf("C10/goroutine-left-real:"+fn, "every socket of the run was closed 15s ago; %d goroutines are still executing library code:\n%s", len(left), strings.Join(left, "\n---\n"))
+}
+
+func libraryGoroutines() []string {
+	buf := make([]byte, 4<<20)
+	buf = buf[:runtime.Stack(buf, true)]
+	var out []string
+	for _, g := range strings.Split(string(buf), "\n\n") {
+		if strings.Contains(g, "verifharness.") && !strings.Contains(g, "created by go.nanomsg.org/mangos/v3/verifsim/simrt.Go") {
+			continue
+		}
+		if strings.Contains(g, "synctest bubble") {
+			continue // left over from an earlier simulated run of this process (its world was killed)
+		}
+		first := ""
+		for _, line := range strings.Split(g, "\n") {
+			if strings.HasPrefix(line, "go.nanomsg.org/mangos/v3") && !strings.HasPrefix(line, "go.nanomsg.org/mangos/v3/verifsim/") {
+				first = line
+				if k := strings.LastIndex(first, "("); k > 0 {
+					first = first[:k]
+				}
+				first = strings.TrimPrefix(first, "go.nanomsg.org/mangos/v3/")
+				break
+			}
+		}
+		if first != "" {
+			lines := strings.Split(g, "\n")
+			if len(lines) > 14 {
+				lines = lines[:14]
+			}
+			out = append(out, first+"\n"+strings.Join(lines, "\n"))
+		}
+	}
+	return out
 }
 
 // QuietCheck runs the clock for d after everything was closed: no library
